@@ -444,7 +444,127 @@ fn main() {
         }
     });
 
-    let total_runs = runs.load(Ordering::Relaxed) + mal_runs.load(Ordering::Relaxed);
+    // ---- command-set sweep: every command shape of the parsers' command set, on an empty keyspace and after a
+    // seeding frame per key type, followed by PING, at every single cut (quick: the seeded streams only at
+    // structural offsets); replies compared with the frame-per-read run (unordered replies as multisets)
+    let sweep_runs = AtomicU64::new(0);
+    let insts: Vec<Argv> = vh::cmdgen::all_instances(vh::cmdgen::Profile::Routing)
+        .into_iter()
+        .filter(|a| {
+            if a.is_empty() {
+                return false;
+            }
+            let name = String::from_utf8_lossy(&a[0]).to_ascii_uppercase();
+            let sub = a.get(1).map(|x| String::from_utf8_lossy(x).to_ascii_uppercase()).unwrap_or_default();
+            // random or time-dependent replies
+            !(matches!(name.as_str(), "TIME" | "INFO") || (name == "SPOP" && a.len() == 2) || (name == "ACL" && sub == "GENPASS"))
+        })
+        .collect();
+    const SWEEP_SEEDS: &[&str] = &["", "SET k1 10", "RPUSH k1 a b", "SADD k1 a b", "HSET k1 a 1 b 2", "ZADD k1 1 a 2 b"];
+    const SWEEP_UNORDERED: &[&str] = &["KEYS", "SMEMBERS", "HGETALL", "HKEYS", "HVALS", "SCAN", "HSCAN", "ZSCAN", "SPOP", "CONFIG", "SORT"];
+    let sweep_items: Vec<(usize, usize)> = (0..insts.len())
+        .flat_map(|i| {
+            let keyed = insts[i].iter().any(|t| t.as_slice() == b"k1");
+            (0..SWEEP_SEEDS.len()).filter(move |s| *s == 0 || keyed).map(move |s| (i, s))
+        })
+        .collect();
+    let sweep_cfgs = [cfgs[0], cfgs[1], cfgs[5]];
+    par::par_map(&sweep_items, |_, (i, s)| {
+        let mut stream: Vec<Argv> = Vec::new();
+        if *s > 0 {
+            stream.push(resp::line(SWEEP_SEEDS[*s]));
+        }
+        stream.push(insts[*i].clone());
+        stream.push(resp::line("PING"));
+        let wires: Vec<Vec<u8>> = stream.iter().map(resp::wire).collect();
+        let bytes: Vec<u8> = wires.concat();
+        let mut starts = Vec::new();
+        let mut o = 0;
+        for w in &wires {
+            starts.push(o);
+            o += w.len();
+        }
+        let canon = |stream: &[Argv], replies: &[RespValue]| -> Vec<String> {
+            fn flat(v: &RespValue, out: &mut Vec<String>) {
+                match v {
+                    RespValue::Array(Some(items)) => items.iter().for_each(|i| flat(i, out)),
+                    other => out.push(resp::show(other)),
+                }
+            }
+            replies
+                .iter()
+                .enumerate()
+                .map(|(i, r)| {
+                    let name = stream.get(i).map(|a| String::from_utf8_lossy(&a[0]).to_ascii_uppercase()).unwrap_or_default();
+                    if SWEEP_UNORDERED.contains(&name.as_str()) {
+                        let mut v = Vec::new();
+                        flat(r, &mut v);
+                        v.sort();
+                        format!("unordered[{}]", v.join(","))
+                    } else {
+                        resp::show(r)
+                    }
+                })
+                .collect()
+        };
+        let twin = run_conn(reference_cfg, &wires);
+        sweep_runs.fetch_add(1, Ordering::Relaxed);
+        let (twin_replies, twin_rest) = decode_replies(&twin.written);
+        let names: Vec<String> = stream.iter().map(cmd_name).collect();
+        if twin.error.is_some() || !twin.finished || !twin_rest.is_empty() || twin_replies.len() != stream.len() {
+            let kind = if twin.error.as_deref().map(|e| e.contains("panicked")).unwrap_or(false) { "panic" } else if twin.error.is_some() || !twin.finished { "hang" } else if twin_replies.len() < stream.len() { "missing-reply" } else { "extra-reply" };
+            rep.violation(
+                format!("frame-per-read {kind} last={} prev={}", names[names.len() - 1], if names.len() > 1 { names[names.len() - 2].clone() } else { "start".into() }),
+                format!("stream [{}] fed one whole frame per read: {} replies for {} commands: [{}] error={:?}", stream.iter().map(resp::show_argv).collect::<Vec<_>>().join("; "), twin_replies.len(), stream.len(), show_replies(&twin_replies), twin.error),
+                json!({"cfg": {"min_pipeline_buffer": reference_cfg.min_pipeline_buffer, "batch_threshold": reference_cfg.batch_threshold, "write_cap": reference_cfg.write_cap, "read_buffer_size": reference_cfg.read_buffer_size, "shards": reference_cfg.shards},
+                       "chunks": wires.iter().map(|c| resp::esc(c)).collect::<Vec<_>>(), "expected_count": stream.len()}),
+            );
+            return;
+        }
+        let want = canon(&stream, &twin_replies);
+        let mut segmentations: Vec<Vec<usize>> = vec![vec![]];
+        if *s == 0 || thorough {
+            segmentations.extend((1..bytes.len()).map(|o| vec![o]));
+        } else {
+            segmentations.extend(structural_offsets(&starts, &bytes).into_iter().map(|o| vec![o]));
+        }
+        for cfg in &sweep_cfgs {
+            for cuts in &segmentations {
+                let chunks = split_at(&bytes, cuts);
+                let out = run_conn(*cfg, &chunks);
+                sweep_runs.fetch_add(1, Ordering::Relaxed);
+                let (replies, rest) = decode_replies(&out.written);
+                let got = canon(&stream, &replies);
+                let bad = out.error.is_some() || !out.finished || !rest.is_empty() || got != want;
+                if !bad {
+                    continue;
+                }
+                let kind = if out.error.as_deref().map(|e| e.contains("panicked")).unwrap_or(false) {
+                    "panic"
+                } else if out.error.is_some() || !out.finished {
+                    "hang"
+                } else if !rest.is_empty() {
+                    "garbage-output"
+                } else if got.len() < want.len() {
+                    "missing-reply"
+                } else if got.len() > want.len() {
+                    "extra-reply"
+                } else {
+                    "wrong-reply"
+                };
+                let i = (0..want.len().max(got.len())).find(|i| got.get(*i) != want.get(*i)).unwrap_or(0);
+                let seg_class = if cuts.is_empty() { "whole" } else if cuts.iter().all(|c| starts.contains(c)) { "frame-aligned" } else { "mid-frame" };
+                let batching = if cfg.batch_threshold <= 1 { "bt1" } else { "bt>1" };
+                rep.violation(
+                    format!("{kind} at={} prev={} seg={seg_class} {batching}", names.get(i).cloned().unwrap_or_else(|| "end".into()), if i > 0 { names[i - 1].clone() } else { "start".into() }),
+                    format!("stream [{}] in reads {:?} (config {}): expected [{}] got [{}] error={:?}", stream.iter().map(resp::show_argv).collect::<Vec<_>>().join("; "), chunks.iter().map(|c| resp::esc(c)).collect::<Vec<_>>(), cfg.label(), want.join(" | "), got.join(" | "), out.error),
+                    json!({"cfg": {"min_pipeline_buffer": cfg.min_pipeline_buffer, "batch_threshold": cfg.batch_threshold, "write_cap": cfg.write_cap, "read_buffer_size": cfg.read_buffer_size, "shards": cfg.shards},
+                           "chunks": chunks.iter().map(|c| resp::esc(c)).collect::<Vec<_>>(), "expected_count": stream.len()}),
+                );
+            }
+        }
+    });
+    let total_runs = runs.load(Ordering::Relaxed) + mal_runs.load(Ordering::Relaxed) + sweep_runs.load(Ordering::Relaxed);
     let coverage = json!({
         "evaluations": total_runs,
         "distinct_nontrivial": distinct_outputs.lock().unwrap().len(),
@@ -454,6 +574,9 @@ fn main() {
         "configs": cfgs.iter().map(|c| c.label()).collect::<Vec<_>>(),
         "handler_runs_wellformed": runs.load(Ordering::Relaxed),
         "handler_runs_malformed": mal_runs.load(Ordering::Relaxed),
+        "command_set_sweep": {"command_instances": insts.len(), "streams": sweep_items.len(), "handler_runs": sweep_runs.load(Ordering::Relaxed),
+            "rule": "stream = [optional seeding frame for k1 (string, list, set, hash, zset)] + one instance of every command shape of the parsers' command set + PING; whole and every single cut at every byte (quick: seeded streams at structural offsets) under 3 configurations (default, mpb1-bt2, 5-byte read buffer); replies compared with the frame-per-read run, unordered replies as multisets",
+            "not_compared": "TIME, INFO, ACL GENPASS, SPOP without count"},
         "samples": [
             {"stream": ["GET k", "SET k v", "INCR n"], "reads": ["*2\\r\\n$3\\r\\nGE", "T\\r\\n$1\\r\\nk\\r\\n*3\\r\\n$3\\r\\nSET...", "..."]},
             {"malformed": "get-key-len-usize-max", "after": ["SET k v"]}
